@@ -101,6 +101,20 @@ func (p *Printer) sp() string {
 	}
 }
 
+// kw prints a keyword; keywords are case-insensitive in the DSL, one in ten is printed in another case.
+func (p *Printer) kw(w string) string {
+	if p.R == nil || p.R.Intn(10) != 0 {
+		return w
+	}
+	switch p.R.Intn(3) {
+	case 0:
+		return strings.ToUpper(w)
+	case 1:
+		return strings.ToUpper(w[:1]) + strings.ToLower(w[1:])
+	}
+	return strings.ToLower(w)
+}
+
 func (p *Printer) Expr(e Expr) string {
 	switch x := e.(type) {
 	case *Lit:
@@ -247,9 +261,9 @@ func (p *Printer) Stmt(s Stmt, ind int) string {
 	case *CallS:
 		return p.Expr(x.C)
 	case *Break:
-		return "break"
+		return p.kw("break")
 	case *Continue:
-		return "continue"
+		return p.kw("continue")
 	case *Return:
 		if x.E == nil {
 			return "return"
@@ -257,20 +271,20 @@ func (p *Printer) Stmt(s Stmt, ind int) string {
 		return "return " + p.Expr(x.E)
 	case *If:
 		var b strings.Builder
-		b.WriteString("if " + p.Expr(x.Cond) + " {" + p.Block(x.Then, ind+1) + p.nl(ind) + "}")
+		b.WriteString(p.kw("if") + " " + p.Expr(x.Cond) + " {" + p.Block(x.Then, ind+1) + p.nl(ind) + "}")
 		for _, ei := range x.ElseIfs {
-			b.WriteString(" else if " + p.Expr(ei.Cond) + " {" + p.Block(ei.Body, ind+1) + p.nl(ind) + "}")
+			b.WriteString(" " + p.kw("else") + " " + p.kw("if") + " " + p.Expr(ei.Cond) + " {" + p.Block(ei.Body, ind+1) + p.nl(ind) + "}")
 		}
 		if x.HasElse {
-			b.WriteString(" else {" + p.Block(x.Else, ind+1) + p.nl(ind) + "}")
+			b.WriteString(" " + p.kw("else") + " {" + p.Block(x.Else, ind+1) + p.nl(ind) + "}")
 		}
 		return b.String()
 	case *For:
-		return "for " + p.assign(x.Init) + "; " + p.Expr(x.Cond) + "; " + p.assign(x.Step) + " {" + p.Block(x.Body, ind+1) + p.nl(ind) + "}"
+		return p.kw("for") + " " + p.assign(x.Init) + "; " + p.Expr(x.Cond) + "; " + p.assign(x.Step) + " {" + p.Block(x.Body, ind+1) + p.nl(ind) + "}"
 	case *ForRange:
-		return "forRange " + x.Key + " := " + x.Cont + " {" + p.Block(x.Body, ind+1) + p.nl(ind) + "}"
+		return p.kw("forRange") + " " + x.Key + " := " + x.Cont + " {" + p.Block(x.Body, ind+1) + p.nl(ind) + "}"
 	case *Conc:
-		return "conc {" + p.Block(x.Members, ind+1) + p.nl(ind) + "}"
+		return p.kw("conc") + " {" + p.Block(x.Members, ind+1) + p.nl(ind) + "}"
 	}
 	return "?"
 }
